@@ -19,14 +19,9 @@ def _calls(p, name=None):
     return [(_sh(e[1]), [strip_ver(_sh(render(x))) for x in e[2]], e[3]) for e in p.effects if e[0] == "call" and (name is None or e[1] == name or e[1].endswith(name))]
 
 
-def _rec(d, key, good, msg, loc):
-    d.setdefault(key, [True, msg, loc])
-    if not good:
-        d[key] = [False, msg, loc]
+from ..engine import rec as _rec, emit as _emit, checked  # noqa: E402
 
 
-def _emit(d):
-    return [ok(k) if g else bad(k, m, l) for k, (g, m, l) in sorted(d.items())]
 
 
 # ------------------------------------------------------------------ search loop
@@ -173,7 +168,7 @@ def match_at(ctx):
     if b is None:
         return [missing(P)]
     d = {}
-    for p in ctx.walk(b).paths:
+    for p in checked(d, "match_at", b, ctx.walk(b).paths):
         gs, r = summarize(p)
         gs = [_sh(strip_ver(g)) for g in gs]
         loc = b.loc(p.blocks[-1])
@@ -220,7 +215,7 @@ def exh_choice(ctx):
     b = ctx.body(N)
     if b is None:
         return [missing(N)]
-    for p in ctx.walk(b, max_visits=1).paths:
+    for p in checked(d, "choice-next", b, ctx.walk(b, max_visits=1).paths, only=lambda p: p.end == "return"):
         gs, r = summarize(p)
         gs = [strip_ver(g) for g in gs]
         loc = b.loc(p.blocks[-1])
@@ -235,7 +230,7 @@ def exh_choice(ctx):
     nb = ctx.body(NB)
     if nb is None:
         return _emit(d) + [missing(NB)]
-    for p in ctx.walk(nb).paths:
+    for p in checked(d, "next_branch", nb, ctx.walk(nb).paths):
         gs, r = summarize(p)
         loc = nb.loc(p.blocks[-1])
         cs = _calls(p)
@@ -280,7 +275,7 @@ def exh_seq(ctx):
     outer = max(loops, key=lambda x: len(loops[x]))
     TOP = "next(Option::unwrap(last_mut(a1.iterators)))"
     X = TOP + " as Some.0"
-    for p in ctx.walk(b, start_bb=outer, max_visits=1).paths:
+    for p in checked(d, "sequence-next", b, ctx.walk(b, start_bb=outer, max_visits=1).paths, only=lambda p: p.end in ("return",) or p.end.startswith("loop")):
         gs, r = summarize(p)
         gs = [strip_ver(g) for g in gs]
         r = strip_ver(r)
@@ -473,7 +468,7 @@ def capture_write(ctx):
         return [missing(N)]
     d = {}
     X = "try(next(a1.basis)) as Continue.0"
-    for p in ctx.walk(b).paths:
+    for p in checked(d, "capture-next", b, ctx.walk(b).paths):
         gs, r = summarize(p)
         gs = [_sh(strip_ver(g)) for g in gs]
         r = strip_ver(r)
@@ -561,7 +556,7 @@ def order_greedy(ctx):
     if ib is None:
         d["IntStepIterator|missing"] = [False, "IntStepIterator::next missing", None]
     else:
-        for p in ctx.walk(ib).paths:
+        for p in checked(d, "int-step", ib, ctx.walk(ib).paths):
             gs, r = summarize(p)
             loc = ib.loc(p.blocks[-1])
             down = "!lt(0, a1.step)" in gs
@@ -622,7 +617,7 @@ def order_reluctant(ctx):
         return [missing(N)]
     d = {}
     BODY = "next(matches_iter(a1.op, a1.matcher, a1.pos))"
-    for p in ctx.walk(b, max_visits=1).paths:
+    for p in checked(d, "reluctant-fixed-next", b, ctx.walk(b, max_visits=1).paths):
         gs, r = summarize(p)
         gs = [_sh(strip_ver(g)) for g in gs]
         r = _sh(strip_ver(r))
@@ -701,7 +696,8 @@ def repeat_iter(ctx):
     if fb is None:
         d["ForceProgress|missing"] = [False, "ForceProgressIterator::next missing", None]
     else:
-        P_ = "Option::Some{0: try(next(a1.base)) as Continue.0}"
+        PV = "try(next(a1.base)) as Continue.0"
+        P_ = "Option::Some{0: %s}" % PV
         for p in ctx.walk(fb).paths:
             gs, r = summarize(p)
             gs = [strip_ver(g) for g in gs]
@@ -716,18 +712,40 @@ def repeat_iter(ctx):
             _rec(d, "fp|threshold-small", k <= 16, "the stagnation threshold grew to %d" % k, loc)
             if not thr[0].startswith("!"):
                 _rec(d, "fp|gives-up", r == "Option::None" and not [c for c in _calls(p) if c[0] == "next"], "beyond the threshold next() must answer None without consulting the base iterator", loc)
-            elif any(g.endswith("=Break") for g in gs):
+                continue
+            if any(g.endswith("=Break") for g in gs):
                 _rec(d, "fp|base-exhausted", r.startswith("propagate("), "base exhaustion is exhaustion", loc)
-            elif ("eq(%s, a1.current_pos)" % P_) in gs or ("eq(a1.current_pos, %s)" % P_) in gs:
-                _rec(d, "fp|same-position-counts", r == P_ and st.get("a1.count_zero_length") == "add(1, a1.count_zero_length)" and "a1.current_pos" not in st, "a repeat of the same position must increase the counter (and yield it)", loc)
+                continue
+            # is the new position the remembered one?  (either `Some(p) == current_pos` or a match on current_pos)
+            same = None
+            if ("eq(%s, a1.current_pos)" % P_) in gs or ("eq(a1.current_pos, %s)" % P_) in gs:
+                same = True
             elif ("!eq(%s, a1.current_pos)" % P_) in gs or ("!eq(a1.current_pos, %s)" % P_) in gs:
-                _rec(d, "fp|new-position-resets", r == P_ and st.get("a1.count_zero_length") == "0" and st.get("a1.current_pos") == P_, "a new position must reset the counter and be remembered as the current position (otherwise only repeats of the first position are ever counted); stores %s" % st, loc)
+                same = False
+            elif "variant(a1.current_pos)=None" in gs:
+                same = False
+            elif "variant(a1.current_pos)=Some" in gs:
+                if ("eq(%s, a1.current_pos as Some.0)" % PV) in gs or ("eq(a1.current_pos as Some.0, %s)" % PV) in gs:
+                    same = True
+                elif ("!eq(%s, a1.current_pos as Some.0)" % PV) in gs or ("!eq(a1.current_pos as Some.0, %s)" % PV) in gs:
+                    same = False
+            if same is None:
+                _rec(d, "fp|position-compared", False, "ForceProgressIterator yields a position without comparing it with the remembered one (guards %s)" % gs[-2:], loc)
+                continue
+            yields = r in (P_,)
+            if same:
+                _rec(d, "fp|same-position-counts", yields and st.get("a1.count_zero_length") == "add(1, a1.count_zero_length)" and st.get("a1.current_pos") in (None, P_), "a repeat of the same position must increase the counter (and yield it); stores %s" % st, loc)
+            else:
+                _rec(d, "fp|new-position-resets", yields and st.get("a1.count_zero_length") in ("0", None) and st.get("a1.current_pos") == P_ and (st.get("a1.count_zero_length") == "0" or "variant(a1.current_pos)=None" in gs), "a new position must reset the counter and be remembered as the current position (otherwise only repeats of the first position are ever counted); stores %s" % st, loc)
+        for k_ in ("fp|gives-up", "fp|same-position-counts", "fp|new-position-resets"):
+            if k_ not in d:
+                d[k_] = [False, "ForceProgressIterator::next lost its %s path" % k_, fb.loc()]
     H = "history::History::is_duplicate_zero_length_match"
     hb = ctx.body(H)
     if hb is None:
         d["History|missing"] = [False, "History::is_duplicate_zero_length_match missing", None]
     else:
-        for p in ctx.walk(hb).paths:
+        for p in checked(d, "history", hb, ctx.walk(hb).paths):
             gs, r = summarize(p)
             r = strip_ver(r)
             loc = hb.loc(p.blocks[-1])
@@ -741,7 +759,7 @@ def repeat_iter(ctx):
     if gb is None:
         d["GreedyRepeat|missing"] = [False, "GreedyRepeatIterator::next missing", None]
     else:
-        for p in ctx.walk(gb, max_visits=1).paths:
+        for p in checked(d, "greedy-repeat-next", gb, ctx.walk(gb, max_visits=1).paths, only=lambda p: p.end == "return"):
             gs, r = summarize(p)
             gs = [strip_ver(g) for g in gs]
             r = strip_ver(r)
